@@ -65,7 +65,14 @@ pub fn gen_case(r: &mut Rng, idx: u64, thorough: bool) -> CrashCase {
     let later_today = today + *r.pick(&[0, 0, 1, 3, 9]);
     // a full year has ~6000 byte offsets: take every 5th one there (and every date only near the end)
     let every = if days > 100 { 5 } else { 1 };
-    let pre = if idx % 2 == 1 || r.chance(30) { Some(r.pick(&["after_create", "after_flush", "before_rename", "b5", "b17"]).to_string()) } else { None };
+    // (every second case: cut inside the digits of a rate — the worst thing to find lying around)
+    let pre = if idx % 2 == 1 {
+        Some(r.pick(&["b25", "b26", "b27", "b43"]).to_string())
+    } else if r.chance(30) {
+        Some(r.pick(&["after_create", "after_flush", "before_rename", "b5", "b17"]).to_string())
+    } else {
+        None
+    };
     CrashCase { year, old_today, today, later_today, cal, every, pre }
 }
 
